@@ -12,7 +12,7 @@ THEOREMS = ["C15_refines_step", "C15_refines_partial", "C15_failed_cas_refuted",
 MODEL_FILES = ["RefStrings.v", "RefName.v", "RefGuard.v", "RefStore.v"]
 MODELLED = ("storage/filesystem/dotgit: SetRef/setRefRwfs, checkReferenceAndTruncate, readReferenceFrom, Ref, packedRef, "
             "findPackedRefsInFile, processLine, Refs (HEAD + loose walk + packed with seen), RemoveRef + rewritePackedRefsWithoutRef, "
-            "PackRefs; plumbing NewReferenceFromStrings, NewHash/FromHex, ObjectID.String; validReferenceName (Model/RefGuard.v) "
+            "PackRefs (as merged: packed-refs is rewritten before the loose file is removed); plumbing NewReferenceFromStrings, NewHash/FromHex, ObjectID.String; validReferenceName (Model/RefGuard.v) "
             "(Model/RefStore.v) over a model of the directory tree (files, directories left behind, ENOTDIR/EISDIR/ENOTEMPTY); "
             "spec: a name -> value map with compare-and-swap on object ids (Spec/RefMap.v). Not modelled: flock, the temp file and "
             "rename of packed-refs (atomic here), setRefNorwfs (filesystems without read-write open), directory iteration order "
@@ -28,11 +28,13 @@ TRUSTED = [
 ASSUMPTIONS = ["single process, no concurrent writer (C16 is about interleavings): flock and rename are atomic steps",
                "compare-and-swap compares object ids only (Reference.Hash()), so it is vacuous between symbolic references: the map spec does the same",
                "write operations may be refused by the operating system when a path component is a file or the path is a directory "
-               "(EISDIR/ENOTDIR/ENOTEMPTY): a refusal must leave the map unchanged"]
+               "(EISDIR/ENOTDIR/ENOTEMPTY): a refused SetReference leaves the map unchanged; a refused RemoveReference has already "
+               "dropped the packed entry and no loose file of that name can exist, so the name is gone from the map as requested"]
 RULE = ("case = initial state (fresh / loose written by git / packed-refs written by git with header and peeled lines / packed by go-git / "
         "symbolic refs inside refs/ / malformed: empty files, 3-field lines, CRLF, duplicates, junk hashes) + 3..10 operations over "
         "{refs/heads/a, refs/heads/a/b, refs/heads/b, refs/tags/t, refs/remotes/origin/HEAD, refs/x, HEAD}: set, CAS with current/stale/"
-        "absent/symbolic old value, read, list, remove, pack; then a listing and a read of every name. Non-trivial = at least one "
+        "absent/symbolic old value, read, list, remove, pack; then a listing and a read of every name; plus a deterministic bucket of "
+        "Set/CAS transitions over every pair of value kinds {hash, short symbolic, long symbolic} x {loose, packed-only, HEAD}, shown to git. Non-trivial = at least one "
         "mutation succeeded or was refused; distinct by content")
 
 HX = lambda b: (b.encode() if isinstance(b, str) else b).hex()
@@ -265,8 +267,43 @@ class Main(Suite):
     thorough_n = 3000
     coq_chunk = 25
 
-    def gen(self, rng, n, tier):
+    def transitions(self, rng):
+        """Set / CAS over every pair of value kinds {hash, symbolic short, symbolic long} x {loose, packed-only, HEAD}:
+        the new encoded line is shorter, equal or longer than the stored one; read, listing and git afterwards"""
+        LONG = "refs/heads/" + "l" * 50
+        kinds = {"hash": lambda: hv(rng.choice(BLOBS[:4])), "symshort": lambda: sv(A), "symlong": lambda: sv(LONG)}
         cases = []
+        for place in ("loose", "packed", "head"):
+            for fk in kinds:
+                if place == "packed" and fk != "hash":
+                    continue
+                for tk in kinds:
+                    for mode in ("set", "cas"):
+                        name = HEAD if place == "head" else rng.choice([B, RH, X])
+                        fv, tv = kinds[fk](), kinds[tk]()
+                        if fv == tv:
+                            tv = hv(BLOBS[3] if fv[1] != BLOBS[3] else BLOBS[2])
+                        files = {HEAD: "ref: refs/heads/a\n", A: BLOBS[4] + "\n"}
+                        spec = {HEAD: sv(A), A: hv(BLOBS[4])}
+                        spec[name] = fv
+                        if place == "packed":
+                            files["packed-refs"] = render_packed({name: fv}, header=rng.random() < 0.5)
+                        else:
+                            files[name] = loose_content(fv)
+                        ops = [{"op": "set", "name": HX(name), "val": tv, "old": fv if mode == "cas" else None},
+                               {"op": "ref", "name": HX(name)}, {"op": "refs"}]
+                        if rng.random() < 0.5:
+                            ops.append({"op": "pack"})
+                        # and back again, so that the longer line is shortened too
+                        ops.append({"op": "set", "name": HX(name), "val": fv, "old": tv if mode == "cas" else None})
+                        ops.append({"op": "refs"})
+                        for nm in NAMES:
+                            ops.append({"op": "ref", "name": HX(nm)})
+                        cases.append(self.mk_case("transition", files, spec, ops[:-len(NAMES) - 2] if rng.random() < 0.5 else ops, git=True))
+        return cases
+
+    def gen(self, rng, n, tier):
+        cases = self.transitions(rng)
         for i in range(n):
             bucket = pick_weighted(rng, [(2, "fresh"), (2, "git-loose"), (3, "git-packed"), (2, "gogit-packed"), (2, "symbolic"), (2, "malformed")])
             files, spec = gen_init(rng, bucket)
@@ -371,11 +408,13 @@ class Main(Suite):
                 if got != want:
                     return where + ": listing %s, the map says %s" % (got[:300], want[:300]), m, tags
             elif o["op"] == "rm":
+                # RemoveRef rewrites packed-refs first and removes the loose path second: when the OS refuses the
+                # second step (the path is a non-empty directory or lies below a regular file) no loose file of that
+                # name exists and the packed entry is already gone, so the name leaves the map either way
                 if got == "( err fs )":
                     if not df_conflict(ever, name):
                         return where + ": refused by the filesystem without any directory/file conflict in the history", m, tags
-                    continue
-                if got != "( ok )":
+                elif got != "( ok )":
                     return where + ": answered %s, the map says ( ok )" % got, m, tags
                 m.pop(name, None)
                 loose.discard(name)
